@@ -109,7 +109,7 @@ CHECKS = {
     ),
     "C04": dict(
         modules=["AggkitModel.Properties.C04"],
-        scenarios=[dict(name="bridgestore"), dict(name="l1infostore")],
+        scenarios=[dict(name="bridgestore"), dict(name="l1infostore"), dict(name="tree"), dict(name="gersync")],
         generated=["Schema"],
         leanchecker=True,
         level_text="Proved in Lean 4: C04_tree_roots — any two well-formed histories (blocks, rollbacks, restarts, reorgs incl. nested/repeated ones and continuations on the new fork) with the same surviving leaves serve the same exit root "
@@ -125,14 +125,14 @@ CHECKS = {
     ),
     "C07": dict(
         modules=["AggkitModel.Properties.C07"],
-        scenarios=[dict(name="bridgestore"), dict(name="tree"), dict(name="l1infostore"), dict(name="gersync")],
+        scenarios=[dict(name="bridgestore"), dict(name="tree"), dict(name="l1infostore"), dict(name="gersync"), dict(name="reorgsync")],
         generated=["SyncFacts"],
         leanchecker=True,
         level_text="Proved in Lean 4: C07_atomic — for every block and EVERY index of the failing write statement (and for duplicate keys, deposit gaps, refusal while halted): a ProcessBlock that does not return success leaves blocks, event rows, exit-tree roots and nodes exactly as before; "
                    "C07_retry_clean_roots — a block attempt rolled back after any number of its leaves, incl. a fault inside AddLeaf's store statements, followed by anything, serves exactly the roots of a run in which the attempt never happened (corollary of the history induction runHistory_inv; "
                    "with C08_appendonly also the same leaves/proofs); C07_inconsistent_means_halted + C14_refuses_while_halted — the only error the driver does not retry leaves the processor halted, so no later block is recorded while an earlier one is missing. "
                    "Tie: real bridge processor with SQL-trigger faults at a chosen write statement (bridgestore) and real tree package with statement-level faults incl. reads (tree); retry compared with a fault-free twin; "
-                   "the L1 info tree store (l1infostore: `blk!` — one-shot SQL-trigger fault at a chosen write statement of block / leaf / batch rows and of both trees' roots and nodes, retry, twin and contract references) and the injected-GER store (gersync: `poll!`) the same way: the model's faulted attempt (`processBlockF`, `poll!` = `poll`) changes nothing, the real stores must agree. "
+                   "the L1 info tree store (l1infostore: `blk!` — one-shot SQL-trigger fault at a chosen write statement of block / leaf / batch rows and of both trees' roots and nodes, retry, twin and contract references) and the injected-GER store (gersync: `poll!`) the same way: the model's faulted attempt (`processBlockF`, `poll!` = `poll`) changes nothing, the real stores must agree; the real EVMDriver.handleNewBlock (reorgsync: `step!` — ProcessBlock fails once or twice before it reaches the store, for finalized and non-finalized blocks) must retry the same block. "
                    "Genuine defects found by this check and fixed in /repo: F1 (rollback left the frontier polluted), F14 (initCache advanced lastIndex before the cache was rebuilt), F2 (transient AddLeaf error reported as inconsistency without halting).",
         level_note="Trusted: Lean kernel; H.Inj; model/code correspondence (generator-bounded). Process kill = rollback of the open transaction + restart (SQLite atomic commit trusted). The driver's retry loop is argued from the two theorems, not modelled as a goroutine. For the L1 info and injected-GER stores: C07_l1info_atomic / C07_ger_atomic prove all-or-nothing for every LOGICAL failure (halted, duplicate block, announced-root mismatch, recurring tree state); for a failing storage statement the faulted attempt is the model's definition (state unchanged), justified by C07_code_facts (every statement error is returned, rollback unless committed — regenerated from the source) and checked against the real stores by the correspondence run.",
         rule="bridgestore: 35% of blocks get 1-2 faulted attempts at a uniformly chosen write statement (block insert, root/rht inserts inside AddLeaf, row inserts, legacy deletes) before a clean retry, some with a restart in between; "
@@ -156,7 +156,7 @@ CHECKS = {
     "C11": dict(
         modules=["AggkitModel.Properties.C11"],
         scenarios=[dict(name="l1infostore")],
-        generated=[],
+        generated=["SyncFacts"],
         leanchecker=True,
         level_text="Proved in Lean 4 (any height, any hash algebra, H.Inj where needed): C11_indices_consecutive — for every mix of events in a block the stored info leaves get consecutive indices in event order and nothing else touches the leaf table; "
                    "C11_info_root_is_contract_root — for every well-formed history the root recorded for index i is the deposit-contract algorithm's root after i+1 leaves (the GER contract uses the same incremental tree); "
@@ -208,7 +208,7 @@ CHECKS = {
     ),
     "C03": dict(
         modules=["AggkitModel.Properties.C03"],
-        scenarios=[dict(name="aggsender"), dict(name="certcodec")],
+        scenarios=[dict(name="aggsender"), dict(name="certcodec"), dict(name="bridgestore")],
         generated=["CertFacts"],
         leanchecker=True,
         level_text="Proved in Lean 4. Byte level, for every field value and any 32-byte hash function: C03_exit_leaf — the exit the node builds for a bridge event hashes (BridgeExit.Hash, the Agglayer's side) to exactly the leaf the event has in the L2 exit tree (Bridge.Hash), empty and non-empty metadata alike; C03_exit_fields — every field is carried over unchanged; "
